@@ -112,6 +112,10 @@ class Polynomial(Expression):
     def __ne__(self, other):
         return not self.__eq__(other)
 
+    def __hash__(self):
+        # consistent with __eq__, which compares base and data
+        return hash((type(self).__name__, self.Base, self.Data))
+
     def __neg__(self):
         return Polynomial(self.Base,
                           [(exp, -coeff)
